@@ -555,17 +555,33 @@ pub(crate) fn unique(val: &[Value], _: Kwargs, _: &State) -> Vec<Value> {
     res
 }
 
+/// The entries of a map in the order they are listed: keys are sorted to have deterministic
+/// output if preserve_order is not used
+fn sorted_entries(val: &Map) -> Vec<(&Key<'static>, &Value)> {
+    let mut entries: Vec<_> = val.iter().collect();
+    if cfg!(not(feature = "preserve_order")) {
+        entries.sort_by_key(|elem| elem.0);
+    }
+    entries
+}
+
 pub(crate) fn values(val: &Map, _: Kwargs, _: &State) -> TeraResult<Vec<Value>> {
-    Ok(val.values().cloned().collect())
+    Ok(sorted_entries(val)
+        .into_iter()
+        .map(|(_, v)| v.clone())
+        .collect())
 }
 
 pub(crate) fn keys(val: &Map, _: Kwargs, _: &State) -> TeraResult<Vec<Value>> {
-    Ok(val.keys().map(|k| k.clone().into()).collect())
+    Ok(sorted_entries(val)
+        .into_iter()
+        .map(|(k, _)| k.clone().into())
+        .collect())
 }
 
 pub(crate) fn pairs(val: &Map, _: Kwargs, _: &State) -> TeraResult<Vec<Value>> {
-    Ok(val
-        .iter()
+    Ok(sorted_entries(val)
+        .into_iter()
         .map(|(k, v)| Value::from(vec![Value::from(k.clone()), v.clone()]))
         .collect())
 }
